@@ -368,6 +368,152 @@ theorem EvalsTail.cond_iff {σ ρ t c a l tv σ₁} (ht : Evals σ ρ t (.ok tv)
 
 end Ruschm.Eval
 
+/-! ## tail position -/
+
+namespace Ruschm.Eval
+
+/-- `InTail sub e`: `sub` is in tail position of `e` — `e` itself; an arm of an `if` that is in
+tail position; the last body expression of a `lambda` expression that is the operator of a call in
+tail position (what `begin`, `let`, … expand to). -/
+inductive InTail : Expr → Expr → Prop
+  | here (e : Expr) : InTail e e
+  | cond_then {sub t c a l} : InTail sub c → InTail sub (.cond t c a l)
+  | cond_else {sub t c alt l} : InTail sub alt → InTail sub (.cond t c (some alt) l)
+  | lam_call {sub formals defs pre last l args l'} : InTail sub last →
+      InTail sub (.call (.lambda (.mk formals defs (pre ++ [last])) l) args l')
+
+theorem InTail.trans {a b c : Expr} (h₁ : InTail a b) (h₂ : InTail b c) : InTail a c := by
+  induction h₂ with
+  | here => exact h₁
+  | cond_then _ ih => exact .cond_then ih
+  | cond_else _ ih => exact .cond_else ih
+  | lam_call _ ih => exact .lam_call ih
+
+/-- what the trampoline does with a pending call `(f targs…)` of frame `tenv`: operator, operands,
+the procedure test, and THE LOOP CONTINUES with the callee (`Applies`, not `AppliesProc`) -/
+def PendingRuns (env : Nat) (σ₁ : Store) (tenv : Nat) (f : Expr) (targs : List Expr)
+    (r : Except SErr Value) (σ' : Store) : Prop :=
+  (∃ er, Evals σ₁ tenv f (.error er) σ' ∧ r = .error er) ∨
+  (∃ fv σ₂, Evals σ₁ tenv f (.ok fv) σ₂ ∧
+    ((∃ er, EvalsArgs σ₂ tenv targs (.error er) σ' ∧ r = .error er) ∨
+     (∃ vs σ₃, EvalsArgs σ₂ tenv targs (.ok vs) σ₃ ∧
+       ((procArity fv = none ∧ r = .error (.nonProcedure, none) ∧ σ' = σ₃) ∨
+        ((procArity fv).isSome ∧ Applies σ₃ fv vs env r σ')))))
+
+/-- `TailRuns env σ ρ e r σ'`: the running loop (entered from frame `env`), having reached the tail
+expression `e` of the current procedure body in frame `ρ` and store `σ`, ends with outcome `r` in
+store `σ'`: `e` is evaluated by `eval_tail_expression`; an error or a value ends the loop, a pending
+call is run by `PendingRuns` -/
+def TailRuns (env : Nat) (σ : Store) (ρ : Nat) (e : Expr) (r : Except SErr Value) (σ' : Store) : Prop :=
+  (∃ er, EvalsTail σ ρ e (.error er) σ' ∧ r = .error er) ∨
+  (∃ v, EvalsTail σ ρ e (.ok (.value v)) σ' ∧ r = .ok v) ∨
+  (∃ f targs tenv σ₁, EvalsTail σ ρ e (.ok (.tailCall f targs tenv)) σ₁ ∧ PendingRuns env σ₁ tenv f targs r σ')
+
+theorem EvalsDefs.of_seq {ρ σ ds σ'} (h : EvalsDefSeq ρ σ ds σ') : EvalsDefs σ ρ ds (.ok ()) σ' := by
+  have := EvalsDefs.seq_then h (EvalsDefs.nil (ρ := ρ))
+  simpa using this
+
+theorem PendingRuns.applies {env σ lam cenv args f targs tenv σ₁ r σ'}
+    (ha : arityOk lam.formals.fixed.length lam.formals.rest.isSome args.length = true)
+    (hs : AppliesScheme σ lam cenv args (.ok (.tailCall f targs tenv)) σ₁)
+    (h : PendingRuns env σ₁ tenv f targs r σ') : Applies σ (.closure lam cenv) args env r σ' := by
+  rcases h with ⟨er, hf, rfl⟩ | ⟨fv, σ₂, hf, ⟨er, hargs, rfl⟩ | ⟨vs, σ₃, hargs, ⟨hp, rfl, rfl⟩ | ⟨hp, hl⟩⟩⟩
+  · exact Applies.closure_tail_op_err ha hs hf
+  · exact Applies.closure_tail_arg_err ha hs hf hargs
+  · exact Applies.closure_tail_nonproc ha hs hf hargs hp
+  · exact Applies.closure_tail ha hs hf hargs hp hl
+
+/-- an iteration of the loop on a user procedure whose parameters are bound, whose definitions and
+whose body expressions before the last one have been evaluated: the rest of the loop is `TailRuns`
+of the last body expression -/
+theorem TailRuns.applies {env σ formals defs pre last cenv args restArgs σ₁ σ₂ σ₃ r σ'}
+    (ha : arityOk formals.fixed.length formals.rest.isSome args.length = true)
+    (hb : bindFixed (σ.newFrame (some cenv)).2 (σ.newFrame (some cenv)).1 formals.fixed args = (.ok restArgs, σ₁))
+    (hd : EvalsDefSeq (σ.newFrame (some cenv)).1
+      (Ref.bindRest σ₁ (σ.newFrame (some cenv)).1 formals.rest restArgs) defs σ₂)
+    (hpre : EvalsSeq (σ.newFrame (some cenv)).1 σ₂ pre σ₃)
+    (h : TailRuns env σ₃ (σ.newFrame (some cenv)).1 last r σ') :
+    Applies σ (.closure (.mk formals defs (pre ++ [last])) cenv) args env r σ' := by
+  have hs : ∀ {tr σ₄}, EvalsTail σ₃ (σ.newFrame (some cenv)).1 last tr σ₄ →
+      AppliesScheme σ (.mk formals defs (pre ++ [last])) cenv args tr σ₄ := fun ht =>
+    AppliesScheme.intro_ok (lam := .mk formals defs (pre ++ [last])) hb (EvalsDefs.of_seq hd)
+      (EvalsBody.seq_last hpre ht)
+  rcases h with ⟨er, ht, rfl⟩ | ⟨v, ht, rfl⟩ | ⟨f, targs, tenv, σ₄, ht, hp⟩
+  · exact Applies.closure_err ha (hs ht)
+  · exact Applies.closure_value ha (hs ht)
+  · exact hp.applies ha (hs ht)
+
+/-- `TailPath env σ ρ e σs ρs sub`: evaluation of the tail expression `e` (frame `ρ`, store `σ`)
+ARRIVES at the sub-expression `sub` as the tail expression to evaluate in frame `ρs`, store `σs`:
+through the arm of an `if` its test selects, and through the application of a `lambda` expression
+in operator position — operands, parameter binding, definitions and the body expressions before the
+last one all evaluating without error. -/
+inductive TailPath (env : Nat) : Store → Nat → Expr → Store → Nat → Expr → Prop
+  | here {σ ρ e} : TailPath env σ ρ e σ ρ e
+  | cond_then {σ ρ t c a l tv σ₁ σs ρs sub} (ht : Evals σ ρ t (.ok tv) σ₁) (htv : tv.truthy = true)
+      (h : TailPath env σ₁ ρ c σs ρs sub) : TailPath env σ ρ (.cond t c a l) σs ρs sub
+  | cond_else {σ ρ t c alt l tv σ₁ σs ρs sub} (ht : Evals σ ρ t (.ok tv) σ₁) (htv : tv.truthy = false)
+      (h : TailPath env σ₁ ρ alt σs ρs sub) : TailPath env σ ρ (.cond t c (some alt) l) σs ρs sub
+  | lam_call {σ ρ formals defs pre last l args l' vs σ₁ restArgs σ₂ σ₃ σ₄ σs ρs sub}
+      (hargs : EvalsArgs σ ρ args (.ok vs) σ₁)
+      (ha : arityOk formals.fixed.length formals.rest.isSome vs.length = true)
+      (hb : bindFixed (σ₁.newFrame (some ρ)).2 (σ₁.newFrame (some ρ)).1 formals.fixed vs = (.ok restArgs, σ₂))
+      (hd : EvalsDefSeq (σ₁.newFrame (some ρ)).1
+        (Ref.bindRest σ₂ (σ₁.newFrame (some ρ)).1 formals.rest restArgs) defs σ₃)
+      (hpre : EvalsSeq (σ₁.newFrame (some ρ)).1 σ₃ pre σ₄)
+      (h : TailPath env σ₄ (σ₁.newFrame (some ρ)).1 last σs ρs sub) :
+      TailPath env σ ρ (.call (.lambda (.mk formals defs (pre ++ [last])) l) args l') σs ρs sub
+
+theorem EvalsDefSeq.depthOk {ρ σ ds σ'} (h : EvalsDefSeq ρ σ ds σ') : DepthOk σ σ' := by
+  induction h with
+  | nil => exact .refl _
+  | cons h _ ih => exact (h.depthOk.trans (.of_eq (define_counters ..).1 (define_counters ..).2)).trans ih
+
+theorem TailRuns.cond_true {env σ ρ t c a l tv σ₁ r σ'} (ht : Evals σ ρ t (.ok tv) σ₁) (htv : tv.truthy = true)
+    (h : TailRuns env σ₁ ρ c r σ') : TailRuns env σ ρ (.cond t c a l) r σ' := by
+  rcases h with ⟨er, h, rfl⟩ | ⟨v, h, rfl⟩ | ⟨f, targs, tenv, σ₂, h, hp⟩
+  · exact .inl ⟨er, EvalsTail.cond_true ht htv h, rfl⟩
+  · exact .inr (.inl ⟨v, EvalsTail.cond_true ht htv h, rfl⟩)
+  · exact .inr (.inr ⟨f, targs, tenv, σ₂, EvalsTail.cond_true ht htv h, hp⟩)
+
+theorem TailRuns.cond_false {env σ ρ t c alt l tv σ₁ r σ'} (ht : Evals σ ρ t (.ok tv) σ₁) (htv : tv.truthy = false)
+    (h : TailRuns env σ₁ ρ alt r σ') : TailRuns env σ ρ (.cond t c (some alt) l) r σ' := by
+  rcases h with ⟨er, h, rfl⟩ | ⟨v, h, rfl⟩ | ⟨f, targs, tenv, σ₂, h, hp⟩
+  · exact .inl ⟨er, EvalsTail.cond_false ht htv h, rfl⟩
+  · exact .inr (.inl ⟨v, EvalsTail.cond_false ht htv h, rfl⟩)
+  · exact .inr (.inr ⟨f, targs, tenv, σ₂, EvalsTail.cond_false ht htv h, hp⟩)
+
+/-- a pending call in tail position is run by the trampoline -/
+theorem TailRuns.call {env σ ρ f targs l r σ'} (h : PendingRuns env σ ρ f targs r σ') :
+    TailRuns env σ ρ (.call f targs l) r σ' :=
+  .inr (.inr ⟨f, targs, ρ, σ, EvalsTail.call, h⟩)
+
+/-- THE GENERAL PRINCIPLE: along a `TailPath` the sub-expression is `InTail`, the depth does not
+change, and whatever the loop does from the sub-expression on is what it does from the enclosing
+tail expression on — in particular a call reached this way is a pending call of THE SAME loop -/
+theorem TailPath.spec {env σ ρ e σs ρs sub} (h : TailPath env σ ρ e σs ρs sub) :
+    InTail sub e ∧ DepthOk σ σs ∧ ∀ r σ', TailRuns env σs ρs sub r σ' → TailRuns env σ ρ e r σ' := by
+  induction h with
+  | here => exact ⟨.here _, .refl _, fun _ _ h => h⟩
+  | cond_then ht htv _ ih =>
+    exact ⟨.cond_then ih.1, ht.depthOk.trans ih.2.1, fun r σ' h => TailRuns.cond_true ht htv (ih.2.2 r σ' h)⟩
+  | cond_else ht htv _ ih =>
+    exact ⟨.cond_else ih.1, ht.depthOk.trans ih.2.1, fun r σ' h => TailRuns.cond_false ht htv (ih.2.2 r σ' h)⟩
+  | @lam_call σ ρ formals defs pre last l args l' vs σ₁ restArgs σ₂ σ₃ σ₄ σs ρs sub hargs ha hb hd hpre _ ih =>
+    refine ⟨.lam_call ih.1, ?_, fun r σ' h => ?_⟩
+    · have hbc := bindFixed_counters formals.fixed vs (σ₁.newFrame (some ρ)).2 (σ₁.newFrame (some ρ)).1
+      rw [hb] at hbc
+      have h₁₂ : DepthOk σ₁ σ₂ := .of_eq hbc.1 hbc.2
+      have hr : DepthOk σ₂ (Ref.bindRest σ₂ (σ₁.newFrame (some ρ)).1 formals.rest restArgs) := by
+        unfold Ref.bindRest; split
+        · exact .of_eq (define_counters ..).1 (define_counters ..).2
+        · exact .refl _
+      exact ((((hargs.depthOk.trans h₁₂).trans hr).trans hd.depthOk).trans hpre.depthOk).trans ih.2.1
+    · refine TailRuns.call (.inr ⟨.closure (.mk formals defs (pre ++ [last])) ρ, σ, Evals.lambda, .inr ⟨vs, σ₁, hargs, .inr ⟨rfl, ?_⟩⟩⟩)
+      exact TailRuns.applies ha hb hd hpre (ih.2.2 r σ' h)
+
+end Ruschm.Eval
+
 /-! ## machinery for evaluating concrete loops -/
 
 namespace Ruschm
